@@ -4,17 +4,8 @@ tree), run the checks of the properties it affects, record what they report, res
 Writes tools/revert_results.json.  (Development aid, not a registered check.)"""
 import json, subprocess, sys, os
 ROOT = os.path.dirname(os.path.dirname(os.path.abspath(__file__)))
-PLAN = [
- ("a361234", ["C16", "C08"]), ("efaa8db", ["C09"]), ("16a3936", ["C09"]), ("73fd49c", ["C04", "C01"]),
- ("fa7e46e", ["C09", "C01"]), ("c0af71a", ["C09"]), ("781965a", ["C09", "C01"]), ("1c36d9c", ["C09"]),
- ("2d0cf84", ["C09"]), ("c269226", ["C08", "C01"]), ("6781158", ["C12"]), ("094c1e1", ["C08"]),
- ("9697ea0", ["C08", "C10"]), ("fe71f01", ["C08"]), ("e1d3edc", ["C08"]), ("d8c3ab2", ["C08"]),
- ("ff25cc4", ["C08"]), ("8a96752", ["C08"]), ("3bbcffb", ["C08"]), ("17e70f8", ["C12"]),
- ("310d8ef", ["C13"]), ("fd2ccb7", ["C13"]), ("80ef4c7", ["C13"]), ("d466157", ["C13"]),
- ("a64319c", ["C17", "C01"]), ("3216c9a", ["C03"]), ("6c2fc59", ["C03"]), ("1217a00", ["C01"]),
- ("cdc09a4", ["C20"]), ("f3c5478", ["C17"]), ("e3f6be0", ["C05"]), ("cffbf80", ["C10", "C06"]),
- ("c99e27b", ["C18"]), ("e52d00a", ["C19"]),
-]
+sys.path.insert(0, os.path.join(ROOT, "tools"))
+from revert_plan import PLAN  # noqa
 def sh(cmd, **kw):
     return subprocess.run(cmd, shell=True, capture_output=True, text=True, **kw)
 OUT = os.path.join(ROOT, "tools", "revert_results.json")
